@@ -137,6 +137,13 @@ __CPROVER_ensures(g_exc || (g_phase==4 && g_act[g_nxt]==1))
 __CPROVER_ensures(!g_exc || g_phase==__CPROVER_old(g_phase))
 ;
 
+/* a row that entered its target with execute_entry directly would hand the plain event to a target that may be an explicit entry, a fork or
+   an entry point of a submachine (these need the direct_entry_event wrapper built by convert_event_and_execute_entry<Target, T2>) */
+void execute_entry(type_t st, stref_t s, event_t evt, fsm_t* fsm)
+__CPROVER_requires(0)                                                             /*@ob C09,C02,C08.entry-is-told-the-declared-target-type-so-explicit-fork-and-entry-point-targets-are-honoured */
+__CPROVER_assigns()
+;
+
 /* ---- the units ------------------------------------------------------------------------- */
 
 #define ROW_PRE \
